@@ -224,6 +224,22 @@ func (sw *SlidingWindow) Add(data any) {
 		}
 		sw.initialized = true
 	}
+	// An on-time event may precede the first event seen (out-of-order arrival
+	// within MaxOutOfOrderness). The current slot only ever moves forward, so a
+	// row before its start would never be reported in the earlier intervals that
+	// cover it and would be evicted at the first firing. Nothing can have fired
+	// yet in that case (a fired or skipped slot ends at or before the watermark,
+	// and an on-time event is not before the watermark), so move the
+	// not-yet-fired current slot back to the event's own slide-aligned window.
+	if timeChar == types.EventTime && sw.currentSlot != nil && eventTime.Before(*sw.currentSlot.Start) &&
+		(sw.watermark == nil || !sw.watermark.IsEventTimeLate(eventTime)) {
+		// (with slide > size an event may fall in the gap between two windows;
+		// it belongs to none, so the slot stays where it is)
+		if aligned := alignWindowStart(eventTime, sw.slide); eventTime.Before(aligned.Add(sw.size)) {
+			sw.currentSlot = sw.createSlotFromStart(aligned)
+		}
+	}
+
 	row := types.Row{
 		Data:      data,
 		Timestamp: eventTime,
